@@ -311,6 +311,49 @@ def attach(m, spec, idt=np.int32):
     return m
 
 
+def reused_dict_case(ctx, m0, tmpdir, info):
+    """ONE user cell_data dictionary passed to two consecutive exports of differently tagged versions of a mesh
+    (as when loaded data is passed on, or a dictionary of user fields is kept): the second file carries the
+    tags of the SECOND mesh"""
+    from skfem.io.meshio import to_meshio, from_meshio
+    rng = ctx.rng
+    ma, spec_a = make_tagged(rng, m0)
+    mb, spec_b = make_tagged(rng, m0)
+    # same names, other sets: take b's sets under a's names where possible
+    pd, cd = make_user_data(rng, ma)
+    shared = {k: [np.array(v[0], copy=True)] for k, v in cd.items()} or {"user": [np.arange(m0.t.shape[1], dtype=float)]}
+    fmt = rng.choice(["meshio-object", "vtk-ascii", "gmsh22"] if "vtk-ascii" in MESHIO_FORMATS else
+                     ["meshio-object"] + list(MESHIO_FORMATS)[:2])
+    cls = type(m0).__name__
+    replay = {"cls": cls, "p": m0.doflocs.tolist(), "t": m0.t.tolist(), "tags_first": spec_a, "tags": spec_b,
+              "format": fmt, "info": info, "sequence": "save(first, cell_data=d); save(second, cell_data=d) with ONE dict d"}
+    ctx.count("reused-user-dict:" + fmt)
+    ctx.case({"cls": cls, "t": m0.t.tolist(), "reused-dict": fmt, "tags": spec_b}, nontrivial=True)
+    try:
+        results = []
+        for mm in (ma, mb):
+            if fmt == "meshio-object":
+                out = ["point_data", "cell_data"]
+                results.append((from_meshio(to_meshio(mm, None, shared), out=out), out))
+            else:
+                suffix, kw = MESHIO_FORMATS[fmt]
+                fn = os.path.join(tmpdir, "reuse" + suffix)
+                mm.save(fn, cell_data=shared, **kw)
+                out = ["point_data", "cell_data"]
+                from skfem import Mesh
+                results.append((Mesh.load(fn, out=out), out))
+                os.remove(fn)
+        m2, out = results[1]
+        bad = compare(mb, m2, spec_b, fmt, {}, {k: v for k, v in cd.items() if k in shared}, out)
+    except Exception as e:
+        ctx.violation(f"second export with a reused cell_data dictionary raised {type(e).__name__}: {e}"[:300],
+                      dict(replay, error=repr(e)), {"what": "raise:" + exc_kind(e), "format": fmt, "cls": cls})
+        return
+    for what, detail in bad:
+        ctx.violation(f"{what} in the SECOND of two exports that were given the same cell_data dictionary ({fmt}, {cls})",
+                      dict(replay, detail=detail), {"what": what, "format": fmt, "cls": cls, "reused_dict": True})
+
+
 def one_case(ctx, m, spec, fmt, tmpdir, pd, cd, variant, info):
     """one round trip + all clauses of the statement; reports violations; returns #problems"""
     cls = type(m).__name__
@@ -647,6 +690,13 @@ def run(ctx):
                          else None)
                 ctx.count("format:" + fmt)
                 one_case(ctx, m, spec, fmt, tmpdir, pd, cd, variant, info)
+            if it % 4 == 1:
+                try:
+                    reused_dict_case(ctx, m0, tmpdir, info)
+                except Exception as e:
+                    ctx.violation("reused-dictionary case raised " + exc_kind(e), {"mesh": meshes.mesh_descr(m0),
+                                                                                   "error": repr(e)},
+                                  {"what": "raise:" + exc_kind(e), "format": "reused-dict", "cls": type(m0).__name__})
             # model correspondence on the same tables
             try:
                 pending += corr_requests(ctx, m, spec, info)
